@@ -237,7 +237,7 @@ func allChecks() []CheckSpec {
 				"threads switch only at synchronisation operations (sound for data-race-free code; data races themselves are outside); channels have rendezvous/buffer semantics, mutexes block, sync.Once.Do returns after f; context package executed as real code",
 				"schedule-dependent counterexamples are replayed by re-executing the recorded schedule on the SSA of the real code (a native run cannot force a schedule); the harness is additionally run natively under the Go scheduler as a sanity check",
 			}, commonAssumptions...),
-			Outside: "the second half of the property (every public Agent/Conn method callable concurrently without data races): race freedom needs a memory-access-level race detector, not a schedule explorer at synchronisation granularity; more than 5 threads; context bounds above 3",
+			Outside: "race freedom of every public Agent/Conn method as such (needs a memory-access-level race detector, not a schedule explorer at synchronisation granularity; two consequences of the second half are checked: state changes need a loop task, Restart is one task); more than 5 threads; context bounds above 3",
 		},
 		{
 			ID: "C15",
@@ -308,7 +308,7 @@ func allChecks() []CheckSpec {
 				"sequential fault paths only: the gatherer goroutine bodies run to completion when spawned; the candidate receive loop and close watchers are scheduled cooperatively (a blocked goroutine yields to the others)",
 				"sockets, transport.Net and the TURN client are recording fakes with a ghost close counter",
 			}, commonAssumptions...),
-			Outside: "WHEN things happen under real concurrency (Restart/Close racing an in-flight exchange), the watcher goroutine inside gatherForURL, DTLS/TLS/TCP TURN branches, the 'open sockets = 0 after Close' tally (needs real goroutines); the host gatherer's socket accounting is checked under C18(d) and duplicate-candidate closing under C06",
+			Outside: "WHEN things happen under real concurrency for STUN/TURN exchanges (Restart/Close racing an in-flight exchange; the host cycle vs Close is explored), the watcher goroutine inside gatherForURL, DTLS/TLS/TCP TURN branches, the 'open sockets = 0 after Close' tally (needs real goroutines); the host gatherer's socket accounting is checked under C18(d) and duplicate-candidate closing under C06",
 		},
 		{
 			ID: "C18",
@@ -340,7 +340,7 @@ func allChecks() []CheckSpec {
 				"transport.Net is a fake (interfaces, ListenUDP outcomes per port); randutil Intn = any value in range; context package executed as real code; taskloop.Run by contract",
 				"the gather goroutine itself is not run in verifC18Cycle (cycle overlap under real concurrency is outside)",
 			}, commonAssumptions...),
-			Outside: "srflx/relay candidate contents (network I/O), TCP mux host candidates, UDP mux path, continual gathering, overlap of cycles under real concurrency",
+			Outside: "srflx/relay candidate contents (network I/O), TCP mux host candidates, overlap of cycles under real concurrency beyond the explored harness",
 		},
 		{
 			ID: "C12",
